@@ -1,4 +1,4 @@
-"""C11 -- undo and redo are exact inverses (clauses R11.1-R11.10)."""
+"""C11 -- undo and redo are exact inverses (clauses R11.1-R11.11)."""
 from __future__ import annotations
 
 import ast
@@ -309,6 +309,22 @@ def check(ctx, res) -> None:
                         f"`{ast.unparse(x)}` is not the most recent entry of the list (changes are appended, so that is [-1]): undo()/redo() without argument "
                         "pick the OLDEST change, and everything after it is undone/redone with it", function=m.qualname)
     res.floor("R11.10", "top-of-stack reads in History", n10, 4)
+
+    # ---- R11.11 a performed change is recorded for undo as soon as ONE of its resources is not ignored (History.do's
+    # docstring: only changes "to ignored files" are uninteresting); a change that also touches an ignored file is recorded
+    ici = hist.methods.get("_is_change_interesting")
+    if ici is None:
+        raise AnalysisError("anchor=History._is_change_interesting not found")
+    form = common.exists_form(ici.node, lambda e: isinstance(e, ast.Call) and call_name(e) == "is_ignored")
+    if form is None:
+        res.undecided("R11.11", "History._is_change_interesting|exists-not-ignored", ici.where, "quantifier shape not recognised")
+    else:
+        ok = form == ("exists", False)
+        res.add("R11.11", "History._is_change_interesting|exists-not-ignored", ok, ici.where,
+                "a change is recorded when at least one of its resources is not ignored" if ok else
+                f"a change counts as interesting when {'every' if form[0] == 'forall' else 'some'} resource is {'ignored' if form[1] else 'not ignored'}: "
+                "a change set that touches an ordinary file AND an ignored one (a backup, a .pyc) is performed but not put on the undo list -- the next "
+                "undo() reverts the change before it, and this one can never be undone", function=ici.qualname)
 
     # ---- R11.9 (=R12.12) the saved undo/redo lists come back in the order they were saved
     from .c18 import history_order_rule
